@@ -48,7 +48,8 @@ var clientRuleVals = []string{
 
 // ClientNames, ClientIPs, TagSets and DNSTypes are the request-side alphabets.
 var (
-	ClientNames = []string{"", "alice", "bob laptop", "carol"}
+	// (the last three read like a name glued to a tag with a separator)
+	ClientNames = []string{"", "alice", "bob laptop", "carol", "alice|device_pc", "alice,device_pc", "alice device_pc"}
 	ClientIPs   = []string{"", "10.0.0.1", "10.1.2.3", "192.168.0.1", "::1", "fe80::1"}
 	TagSets     = [][]string{nil, {"device_pc"}, {"device_phone", "user_child"}, {"device_pc", "user_admin", "user_child"}}
 	DNSTypes    = []uint16{0, 1, 28, 5, 15, 16}
@@ -392,7 +393,7 @@ func GenRule(ch *core.Chooser, k int, hosts []string, prev []string) string {
 	case KWebDocAllow:
 		if ch.Intn("rule.docpath", 3) == 2 {
 			// document-level exception for one page of the site only
-			return "@@||" + h + pick(ch, "rule.srcpath", []string{"/checkout", "/news", "/page"}) + "^$" + []string{"urlblock", "genericblock", "document", "elemhide"}[ch.Intn("rule.doc", 4)]
+			return "@@||" + h + pick(ch, "rule.srcpath", []string{"/checkout", "/news", "/page", "/app?debug=1"}) + "^$" + []string{"urlblock", "genericblock", "document", "elemhide"}[ch.Intn("rule.doc", 4)]
 		}
 		return "@@||" + h + "^$" + []string{"document", "urlblock", "genericblock", "elemhide", "generichide", "jsinject", "stealth", "content"}[ch.Intn("rule.doc", 8)]
 	case KWebMatchCase:
